@@ -53,12 +53,15 @@ class Ctx:
         """rules decided under another property that this property relies on too: run that module's rules on the same
         program and adopt the named ones, so that this property's own check reports their violations"""
         import importlib
+        if self.__dict__.get('_no_borrow'):
+            return          # a borrowed run only contributes the rules its module defines itself (no chains, no cycles)
         cache = self.__dict__.setdefault('_borrowed', {})
         key = (modname, self.flavour)
         if key not in cache:
             sub = Ctx(self.prop, self.tier, self.seed, self.root)
             sub._progs, sub.flavour = self._progs, self.flavour
             sub.__dict__['_borrowed'] = cache
+            sub.__dict__['_no_borrow'] = True
             try:
                 importlib.import_module('lecverif.props.' + modname).run(sub)
                 cache[key] = (sub, None)
